@@ -8,7 +8,13 @@ package main
 //                           (fail closed: an unknown shape answers "unknown:<text>")
 //   !race-cancel iters=<n>  stress: a waiter parked (or about to park) on an exhausted pool
 //                           whose context is cancelled at a random instant around its
-//                           cond.Wait must return; answer "stuck=<k>", specification "stuck=0"
+//                           cond.Wait must return; answer "stuck=<k>", specification "stuck=0".
+//                           A waiter counts as stuck only if it has not returned 1s + 30s after
+//                           the cancellation AND is still parked un-notified in cond.Wait (the
+//                           result is looked at before the timer: on a loaded machine the observer
+//                           itself stalls for more than a second about once in 10^5 attempts,
+//                           while the waiter has long returned). VERIF_RACE_DIAG=1 prints the pool
+//                           snapshot and the waiter's goroutine stack for every late/stuck waiter.
 //   !race-store iters=<n>   same with a Store racing against the wait: the waiter must get the wire
 //   !race-latectx k=<k>     deterministic form of the cancel race: the context becomes done right
 //                           after the waiter's k-th ctx.Err() call and the waiter is delayed there
